@@ -152,7 +152,7 @@ pub(crate) mod verif_c15_qos_wire {
       Err(_) => assert!(k < N || !valid(&b, e), "plcdr.wire.reject: well-formed input refused"),
     }
   }
-  fn always<const N: usize>(_b: &[u8; N], _e: Endianness) -> bool { true }
+  pub fn always<const N: usize>(_b: &[u8; N], _e: Endianness) -> bool { true }
 
   // ---- Duration_t (8) -------------------------------------------------------------------------
   #[kani::proof]
@@ -301,15 +301,15 @@ pub(crate) mod verif_c15_qos_wire {
   // ---- PID_RELIABILITY (ReliabilityKind_t 4 + Duration 8 = 12) ----------------------------------
   #[kani::proof]
   #[kani::unwind(18)]
-  fn c15_rt_reliability() {
+  fn c15_rt_reliability_serialization() {
     let x: ReliabilitySerialization = kani::any();
     let e = any_endianness();
     let mut want = [0u8; 12];
     put32(&mut want, 0, reliability_kind(x.reliability_kind), e);
     put_dur(&mut want, 4, x.max_blocking_time, e);
     if let Some(y) = wire(&x, e, &want) {
-      assert!(y.reliability_kind == x.reliability_kind, "plcdr.wire.reliability: kind");
-      assert!(y.max_blocking_time == x.max_blocking_time, "plcdr.wire.reliability: max_blocking_time");
+      assert!(y.reliability_kind == x.reliability_kind, "plcdr.wire.reliability_serialization: kind");
+      assert!(y.max_blocking_time == x.max_blocking_time, "plcdr.wire.reliability_serialization: max_blocking_time");
     }
   }
   #[kani::proof]
@@ -324,7 +324,7 @@ pub(crate) mod verif_c15_qos_wire {
   fn reliability_valid(b: &[u8; 12], e: Endianness) -> bool { let t = get32(b, 0, e); t == 1 || t == 2 }
   #[kani::proof]
   #[kani::unwind(18)]
-  fn c15_reject_reliability() { parse_any::<ReliabilitySerialization, 12>(any_endianness(), reliability_valid, always::<12>); }
+  fn c15_reject_reliability_serialization() { parse_any::<ReliabilitySerialization, 12>(any_endianness(), reliability_valid, always::<12>); }
 
   // ---- PID_DESTINATION_ORDER (4) --------------------------------------------------------------
   #[kani::proof]
@@ -343,15 +343,15 @@ pub(crate) mod verif_c15_qos_wire {
   // ---- PID_HISTORY (kind 4 + depth 4 = 8) -------------------------------------------------------
   #[kani::proof]
   #[kani::unwind(14)]
-  fn c15_rt_history() {
+  fn c15_rt_history_serialization() {
     let x: HistorySerialization = kani::any();
     let e = any_endianness();
     let mut want = [0u8; 8];
     put32(&mut want, 0, history_kind(&x.kind), e);
     put32(&mut want, 4, x.depth as u32, e);
     if let Some(y) = wire(&x, e, &want) {
-      assert!(history_kind(&y.kind) == history_kind(&x.kind), "plcdr.wire.history: kind");
-      assert!(y.depth == x.depth, "plcdr.wire.history: depth");
+      assert!(history_kind(&y.kind) == history_kind(&x.kind), "plcdr.wire.history_serialization: kind");
+      assert!(y.depth == x.depth, "plcdr.wire.history_serialization: depth");
     }
   }
   #[kani::proof]
@@ -366,7 +366,7 @@ pub(crate) mod verif_c15_qos_wire {
   fn history_valid(b: &[u8; 8], e: Endianness) -> bool { get32(b, 0, e) < 2 }
   #[kani::proof]
   #[kani::unwind(14)]
-  fn c15_reject_history() { parse_any::<HistorySerialization, 8>(any_endianness(), history_valid, always::<8>); }
+  fn c15_reject_history_serialization() { parse_any::<HistorySerialization, 8>(any_endianness(), history_valid, always::<8>); }
 
   // ---- PID_RESOURCE_LIMITS (3 x long = 12) ------------------------------------------------------
   #[kani::proof]
